@@ -134,19 +134,44 @@ def gen_words(chk, mc, quick):
         out.append({"kind": "state-cooling", "word": ["OHc", a, b, "OHp", "OHr"], "lint": False})
         out.append({"kind": "state-warming", "word": ["OHp", "OHw", a, b, "OHr"], "lint": False})
         out.append({"kind": "state-out-of-cpu", "word": ["KCO", a, b, "KCI"], "lint": False})
+        # the same with another thread moving this one to a free CPU in between
+        # (a woken worker migrated while blocked): the precondition is about the
+        # thread's own state, not about where it is
+        mv = (1, "OAr", obs.i32(2, KEYS[0][2]).hex())
+        out.append({"kind": "state-out-of-cpu-moved", "word": ["KCO", mv, a, b, "KCI"], "lint": False, "thread": 0,
+                    "free_cpu": True})
+        out.append({"kind": "state-paused-moved", "word": ["OHp", mv, a, "OHr"], "lint": False, "thread": 0, "free_cpu": True})
+        out.append({"kind": "state-cooling-moved", "word": ["OHc", mv, a, b, "OHp", "OHr"], "lint": False, "thread": 0,
+                    "free_cpu": True})
     return out
 
 
-def word_to_hist(word, thread=0):
-    """The word runs on KEYS[thread]; the other two threads only execute and end."""
+def word_to_hist(word, thread=0, free_cpu=False):
+    """The word runs on KEYS[thread]; the other two threads only execute and
+    end.  An element (thread index, mcv, hex payload) is an event of another
+    thread.  With free_cpu the third thread pauses at once and only resumes at
+    the very end (no thread is running on its CPU in between)."""
     h = []
     t = 1000
     for i, k in enumerate(KEYS):
         h.append((t, k, "OHx", obs.i32(i, k[2], 0), False)); t += 3
+    if free_cpu:
+        h.append((t, KEYS[2], "OHp", b"", False)); t += 3
     key = KEYS[thread]
     for e in word:
         t += 3
-        h.append((t, key, e, b"", False))
+        if isinstance(e, (tuple, list)):
+            h.append((t, KEYS[e[0]], e[1], bytes.fromhex(e[2]), False))
+        else:
+            h.append((t, key, e, b"", False))
+    if free_cpu:
+        for k in KEYS:
+            if k == KEYS[2]:
+                t += 3
+                h.append((t, k, "OHr", b"", False))
+            t += 3
+            h.append((t, k, "OHe", b"", False))
+        return h
     for k in KEYS:
         t += 3
         h.append((t, k, "OHe", b"", False))
@@ -161,7 +186,7 @@ def run_word(case):
     mc = case["mc"]
     sp = refemu.spec()
     enabled = mc + ("K" if mc != "K" else "")
-    hist = word_to_hist(case["word"], case.get("thread", 0))
+    hist = word_to_hist(case["word"], case.get("thread", 0), case.get("free_cpu", False))
     model = refemu.FullSystem(DESC, enabled, {})
     bad = None
     tv, cv = [], []
@@ -191,7 +216,7 @@ def run_word(case):
             res["viol"] = ("crash:%s:sig%s" % (case["kind"], r.sig), "emulator crashed", r.brief()); return res
         acc = emu.accepted(r)
         res["acc"] = acc
-        short = " ".join(case["word"][:12]) + (" ...(%d)" % len(case["word"]) if len(case["word"]) > 12 else "")
+        short = " ".join(str(w) for w in case["word"][:12]) + (" ...(%d)" % len(case["word"]) if len(case["word"]) > 12 else "")
         if expect is not None and acc != expect:
             if expect:
                 res["viol"] = ("rejects-legal:%s:%s" % (mc, case["kind"]), "model %s: properly nested word [%s] rejected%s: %s"
@@ -262,7 +287,8 @@ def main(argv):
             cases, tcases = [], [rp["taskword"]]
         else:
             tcases = []
-            cases = [{"mc": rp["mc"], "kind": rp["kind"], "word": rp["word"], "lint": rp["lint"], "thread": rp.get("thread", 0)}]
+            cases = [{"mc": rp["mc"], "kind": rp["kind"], "word": rp["word"], "lint": rp["lint"], "thread": rp.get("thread", 0),
+                      "free_cpu": rp.get("free_cpu", False)}]
     n = acc = rej = 0
     kinds = {}
     seen = set()
@@ -273,14 +299,14 @@ def main(argv):
             chk.note_inconclusive(v[1]); continue
         n += 1
         kinds[c["kind"]] = kinds.get(c["kind"], 0) + 1
-        seen.add((c["mc"], c["kind"], tuple(c["word"][:40]), c["lint"], c.get("thread", 0)))
+        seen.add((c["mc"], c["kind"], tuple(str(w) for w in c["word"][:40]), c["lint"], c.get("thread", 0)))
         if res["acc"]:
             acc += 1
         else:
             rej += 1
         if v:
             chk.report(v[0], v[1], {"mc": c["mc"], "kind": c["kind"], "word": c["word"][:600], "lint": c["lint"],
-                                    "thread": c.get("thread", 0),
+                                    "thread": c.get("thread", 0), "free_cpu": c.get("free_cpu", False),
                                     "observation": v[2] if len(v) > 2 else {}})
     tn = tev = 0
     tmcvs = set()
